@@ -3233,7 +3233,8 @@ def grouped_reduce(inp: AlignedArrays, *, agg: Scan, axis: int, keepdims=None) -
         func=(agg.reduction,),
         axis=axis,
         engine="flox",
-        dtype=inp.array.dtype,
+        # the per-group totals are carried into later blocks: accumulate them like the scan itself does
+        dtype=agg.dtype,
         fill_value=agg.identity,
         expected_groups=None,
     )
